@@ -121,7 +121,7 @@ def mutate(spec, rng, all_specs):
         s.procs[-1] = "p_%s" % rng.choice(NAMES)
     elif k == "rename":
         s.name = "m_%s" % rng.choice(NAMES) if s.kind == "module" else "prog_%s" % rng.choice(NAMES)
-    elif k == "collide":
+    elif k == "collide" and all_specs:
         other = rng.choice(all_specs)
         s.extra_unit = other.name
     elif k == "extra":
